@@ -196,6 +196,8 @@ static void init_basis (
   free_cache (
 	EGLPNUM_TYPENAME_QSdata * p),
   drop_devex_info (
+	EGLPNUM_TYPENAME_QSdata * p),
+  drop_edge_norms (
 	EGLPNUM_TYPENAME_QSdata * p);
 
 static int opt_work ( EGLPNUM_TYPENAME_QSdata * p, int *status, int primal_or_dual),
@@ -995,6 +997,21 @@ CLEANUP:
  * for the numbers of rows and columns they were built with; a call that adds rows
  * or columns and keeps the factorization (so that the next dual solve keeps the
  * pricing record) must drop them - they are rebuilt when they are missing */
+/* the steepest-edge norms kept with the basis are weights of the rows and
+ * columns of the inverse of the current basis matrix: a call that changes
+ * entries of the matrix (a coefficient, the sign of a logical column) makes
+ * them the weights of another matrix, and the exact weight recurrence must
+ * not be started from those */
+static void drop_edge_norms (
+	EGLPNUM_TYPENAME_QSdata * p)
+{
+	if (p->basis)
+	{
+		EGLPNUM_TYPENAME_EGlpNumFreeArray (p->basis->rownorms);
+		EGLPNUM_TYPENAME_EGlpNumFreeArray (p->basis->colnorms);
+	}
+}
+
 static void drop_devex_info (
 	EGLPNUM_TYPENAME_QSdata * p)
 {
@@ -1624,6 +1641,7 @@ EGLPNUM_TYPENAME_QSLIB_INTERFACE int EGLPNUM_TYPENAME_QSchange_senses (
 	CHECKRVALG (rval, CLEANUP);
 
 	p->factorok = 0;
+	drop_edge_norms (p);
 	free_cache (p);
 
 CLEANUP:
@@ -1715,6 +1733,7 @@ EGLPNUM_TYPENAME_QSLIB_INTERFACE int EGLPNUM_TYPENAME_QSchange_coef (
 	CHECKRVALG (rval, CLEANUP);
 
 	p->factorok = 0;
+	drop_edge_norms (p);
 	free_cache (p);
 
 CLEANUP:
